@@ -165,6 +165,16 @@ fn second_shapes(first: &[usize]) -> Vec<(String, Vec<usize>)> {
     if n > 0 || first.len() > 1 {
         v.push(("different rank, same element count".into(), vec![n]));
     }
+    // different rank where one shape is a prefix of the other: a trailing unit axis appended (same element
+    // count), the last axis dropped
+    {
+        let mut t = first.to_vec();
+        t.push(1);
+        v.push(("other rank: trailing unit axis appended".into(), t));
+        if first.len() >= 2 {
+            v.push(("other rank: last axis dropped".into(), first[..first.len() - 1].to_vec()));
+        }
+    }
     v.dedup();
     v
 }
